@@ -1044,6 +1044,51 @@ def _stack_walk_ok(lp: Loop, stack: Term, child_call: str) -> Optional[str]:
     return None
 
 
+def _iter_stack_ok(lp: Loop, fi, child_call: str) -> Optional[str]:
+    """stack-of-iterators pre-order idiom: the work list holds, for each node on the current path, the iterator over
+    its remaining siblings; each round takes next() of the innermost iterator, drops it when exhausted, otherwise
+    yields the node and pushes the iterator over its children"""
+    stack = lp.iter
+    top = stack.items[0]
+    # the innermost iterator is the last entry: every subscript of the work list in the source is [-1]
+    names = {n.test.id for n in ast.walk(fi.node) if isinstance(n, ast.While) and isinstance(n.test, ast.Name)} if fi is not None else set()
+    if len(names) != 1:
+        return 'the traversal loop does not run while the work list is non-empty'
+    wl = next(iter(names))
+    subs = [n for n in ast.walk(fi.node) if isinstance(n, ast.Subscript) and isinstance(n.value, ast.Name) and n.value.id == wl]
+    if not subs or any(ast.unparse(n.slice) != '-1' for n in subs):
+        return 'the node is not taken from the innermost (last) iterator of the work list'
+    if len(lp.paths) != 2:
+        return f'expected the exhausted / not exhausted cases, found {len(lp.paths)} paths'
+    seen = set()
+    for pg, flow, binds, effs in lp.paths:
+        node = next((v for _, v in binds if isinstance(v, Call) and isinstance(v.func, Ext) and v.func.name == 'next' and len(v.args) == 2 and v.args[0] == top), None)
+        if node is None:
+            return 'the next node is not next(<innermost iterator>, <sentinel>)'
+        sentinel = node.args[1]
+        test = next((pol if g.op == 'is' else not pol for g, pol in norm_guards(pg) if isinstance(g, Op) and g.op in ('is', 'is not') and set(g.args) == {node, sentinel}), None)
+        if test is None:
+            return 'the exhausted iterator is not recognised by identity with the sentinel'
+        pops = [c for c in method_calls(list(effs), 'pop') if call_recv(c) == stack]
+        pushes = [c for c in method_calls(list(effs), 'append') if call_recv(c) == stack]
+        ys = [e for e in effs if isinstance(e, Op) and e.op == 'yield']
+        other = [c for c in effs if isinstance(c, Call) and c not in pops and c not in pushes]
+        if other:
+            return f'unrecognised effect {str(other[0])[:60]} in the traversal loop'
+        if test:
+            if len(pops) != 1 or pops[0].args or pushes or ys:
+                return 'an exhausted iterator is not simply dropped from the end of the work list'
+        else:
+            if pops or len(pushes) != 1 or len(ys) != 1 or ys[0].args[0] != node:
+                return 'a node is not yielded exactly once / its children are not pushed exactly once'
+            arg = pushes[0].args[0] if pushes[0].args else None
+            inner = arg.args[0] if isinstance(arg, Call) and isinstance(arg.func, Ext) and arg.func.name == 'iter' and len(arg.args) == 1 else None
+            if not (isinstance(inner, Call) and call_name(inner) == child_call and call_recv(inner) == node):
+                return f'pushed iterator is not iter(node.{child_call}()): {arg!r}'
+        seen.add(test)
+    return None if seen == {True, False} else 'exhausted / not exhausted cases are not both present'
+
+
 def S7(ctx: Ctx) -> RuleResult:
     r = RuleResult('S7', 'iterate(): every node once, parents before children, left to right')
     root = ctx.model.ast_root()
@@ -1054,7 +1099,7 @@ def S7(ctx: Ctx) -> RuleResult:
         self_t = Sym('self', fi.cls.name)
         outs = ctx.ev.run(fi, {'self': self_t})
         key = f'{fi.cls.name}.iterate'
-        why = _preorder_ok(outs, self_t, 'children', 'iterate')
+        why = _preorder_ok(outs, self_t, 'children', 'iterate', fi)
         if why:
             r.fail(key, why, fi.where)
         else:
@@ -1062,7 +1107,7 @@ def S7(ctx: Ctx) -> RuleResult:
     return r
 
 
-def _preorder_ok(outs: List[Outcome], self_t: Term, child_call: str, rec: str) -> Optional[str]:
+def _preorder_ok(outs: List[Outcome], self_t: Term, child_call: str, rec: str, fi=None) -> Optional[str]:
     if len(outs) != 1 or outs[0].kind not in ('fall', 'return'):
         return f'unexpected control flow: {[str(o)[:80] for o in outs]}'
     effs = outs[0].effects
@@ -1073,6 +1118,8 @@ def _preorder_ok(outs: List[Outcome], self_t: Term, child_call: str, rec: str) -
         start = lp.iter
         if isinstance(start, Call) and isinstance(start.func, Ext) and start.func.name.endswith('deque') and len(start.args) == 1 and not start.kwargs:
             start = start.args[0]
+        if isinstance(start, TupleT) and len(start.items) == 1 and start.items[0] == Call(Ext('iter'), (TupleT((self_t,)),)):
+            return _iter_stack_ok(lp, fi, child_call)
         if not (isinstance(start, TupleT) and start.items == (self_t,)):
             return f'work list does not start as [self]: {lp.iter!r}'
         return _stack_walk_ok(lp, lp.iter, child_call)
